@@ -635,6 +635,41 @@ def finish(ev, num, tier, qs, known, extra_violations=()):
             violations.append((path, '%s: from the abstract state of the solver counterexample, rebuilt through the public API, '
                                '%s on the real build' % (q.name, what)))
             reproduced_conts.add(q.meta['cont'])
+    # ---- step 1b (clause failures whose pre-state the builder cannot reach, e.g. an lfuda count of 0): two calls from a
+    # builder-reachable invariant state, the second one being the failing method
+    y2 = []
+    for q, bad in k2_fail:
+        cont = q.meta['cont']
+        if cont in reproduced_conts or q.meta['prop'] == 0 or num in (0, 8) or cont != 'lfuda':
+            continue
+        for op1 in plan.ops_of(cont):
+            yq = plan.k2_query(cont, op1, q.meta['n'], num, q.meta['ts'], timeout=cfg['lift_timeout'], op2=q.meta['op'],
+                               extra={'BUILDER_FRIENDLY': 1}, tag='_bf')
+            yq.meta['lift_of'] = q.name
+            yq.meta['mem_gb'] = yq.meta['mem_gb'] * 2
+            yq.meta['weight'] = -yq.meta['weight'] if op1 != 'insert' else -10 * yq.meta['weight']
+            if not any(x.name == yq.name for x in y2):
+                y2.append(yq)
+    if y2:
+        sys.stderr.write('%s: lifting clause failure(s) through %d two-call queries from builder-reachable states\n' % (pid, len(y2)))
+        lock1 = threading.Lock()
+
+        def y2_done(yq):
+            if yq.result.status != 'fail':
+                return None
+            with lock1:
+                if yq.meta['cont'] in reproduced_conts:
+                    return None
+                ok, path, info = lift_and_replay(ev, num, yq)
+                if ok:
+                    violations.append((path, '%s (lifting %s): from a state rebuilt through the public API, two calls make clauses %s fail on the real build'
+                                       % (yq.name, yq.meta['lift_of'], info['clause_failures'][:3])))
+                    reproduced_conts.add(yq.meta['cont'])
+                    return [o for o in y2 if o.meta['cont'] == yq.meta['cont'] and o is not yq]
+            return None
+        core.run_all(y2, on_done=y2_done)
+        for yq in y2:
+            ev.add_query(yq, 'lifting (K2x2, builder-reachable start)')
     # ---- step 2 (invariant failures): one more call after the failing one, the clauses asserted around the second
     # call (K2x2).  The counterexample starts in an invariant state, so the state builder can reach it.
     x2 = []
